@@ -848,7 +848,7 @@ func init() {
 	Register(&Engine{
 		ID:    "C06",
 		Race:  true,
-		Cases: func(t string) int { return map[string]int{"quick": 64, "thorough": 3000}[t] },
+		Cases: func(t string) int { return map[string]int{"quick": 96, "thorough": 6000}[t] },
 		Run:   runC06,
 		Post:  racePost("C06"),
 		Rule: "case = one history on a fresh WithLock router: 2-4 writers (Handle with unique handler ids, Remove, Remove-all, Prefix.Clean; owned and contended patterns that split/re-merge the nodes of untouched routes and create/destroy the first-byte index) x 4-8 readers (ServeHTTP, Routes, strict/non-strict URL), yields injected through builders/middleware/interceptor/CallFunc, GOMAXPROCS in {2,4,16}; evaluation = one recorded client event; " +
